@@ -1,5 +1,6 @@
 import MJ.Proofs.Kernels
 import MJ.Proofs.Stk
+import MJ.Proofs.Nesting
 import MJ.Model.CallGraph
 import MJ.Props.C09
 /-!
@@ -550,6 +551,64 @@ example : parserFrameBudget = 2416 := by decide
 example : Chain parserGraphNoElif (Gen.parserFnNames.idxOf "parse_expr")
     [(Gen.parserFnNames.idxOf "parse_expr", Gen.parserFnNames.idxOf "parse_ifexpr", true)] :=
   Chain.cons (by decide) (by decide) (Chain.nil _ (by decide))
+
+/-! ## `ast_depth_bound`: the parser's two counters bound the depth of the AST
+
+`MJ/Model/Nesting.lean`: parse derivations (`P`), the parser's accounting (`sim`: the recursion guard
+and the `expr_nesting` save / reset / bump / max protocol) and the declarative quantities.  Excluded
+(known finding `depth:elif`): the unguarded `elif` recursion, for which `P` has no constructor. -/
+
+/-- a successful parse: `expr_nesting` ends up as the longest loop-built chain on any path of the
+    expression (not the number of its operators), and both limits hold -/
+theorem nesting_exact (p : Nesting.P) (r : Nat) (h : Nesting.parse .real p = .ok r) :
+    r = Nesting.chainDepth p ∧ Nesting.chainDepth p ≤ Gen.maxExprNesting ∧
+    Nesting.guardDepth p ≤ Gen.maxRecursionParser := by
+  unfold Nesting.parse at h
+  have h1 := Nesting.sim_ok _ p 0 0 r h
+  have h2 := Nesting.sim_le .real p 0 0 r (Nat.zero_le _) (Nat.zero_le _) h
+  exact ⟨by simpa using h1, h2.1, by have := h2.2.1; simpa [Nesting.Limits.real] using this⟩
+
+/-- "expression is nested too deeply" is raised only when the longest chain exceeds the limit -/
+theorem nesting_error_exact (p : Nesting.P) (h : Nesting.parse .real p = .error .chain) :
+    Gen.maxExprNesting < Nesting.chainDepth p :=
+  Nesting.sim_chain_err .real p 0 0 h
+
+/-- **AST depth**: whatever parses has at most `2·MAX_EXPR_NESTING + 3·MAX_RECURSION + 1` AST nodes
+    on any path — the recursion depth of `as_const`, `compile_expr`, the meta passes and `Drop` -/
+theorem ast_depth_bound (p : Nesting.P) (r : Nat) (h : Nesting.parse .real p = .ok r) :
+    Nesting.astDepthUB p ≤ 2 * Gen.maxExprNesting + 3 * Gen.maxRecursionParser + 1 := by
+  obtain ⟨_, h1, h2⟩ := nesting_exact p r h
+  have := Nesting.ast_le p
+  simp only [Nesting.wrapNodes, Nesting.groupNodes] at this
+  omega
+
+example : 2 * Gen.maxExprNesting + 3 * Gen.maxRecursionParser + 1 = 2451 := by decide
+
+/-- the extractor found the save / reset / bump / max protocol in every function of `parser.rs` whose
+    loop wraps nodes (textual check, `lib/tables/c01.py: NEST_PROTOCOL`) -/
+theorem nest_protocol_shape : Gen.nestProtocolOk = true := rfl
+
+namespace NestingExamples
+open Nesting
+
+/-- small limits so that the examples are readable: recursion 6, nesting 3 -/
+def small : Limits := ⟨6, 3⟩
+
+/-- `[x.a.a.a, x.a.a.a, x.a.a.a]`: nine loop-built nodes but chains of three: accepted -/
+example : parse small (.group [.chain .leaf [.leaf, .leaf, .leaf], .chain .leaf [.leaf, .leaf, .leaf],
+    .chain .leaf [.leaf, .leaf, .leaf]]) = .ok 3 := by decide
+/-- `x.a.a.a.a`: a chain of four: rejected -/
+example : parse small (.chain .leaf [.leaf, .leaf, .leaf, .leaf]) = .error .chain := by decide
+/-- `x|f(y.a.a.a)`: the argument's chain and the filter are on one path: four -/
+example : parse small (.chain .leaf [.chain .leaf [.leaf, .leaf, .leaf]]) = .error .chain := by decide
+/-- `(x.a.a)|f|f`: chains on the path through a parenthesised operand add up -/
+example : parse small (.chain (.group [.chain .leaf [.leaf, .leaf]]) [.leaf, .leaf]) = .error .chain := by decide
+/-- `f(y.a.a, z.a.a).a`: arguments next to each other do not add up: max(2, 2) + 1 + 1 -/
+example : parse small (.chain .leaf [.group [.chain .leaf [.leaf, .leaf], .chain .leaf [.leaf, .leaf]]]) = .ok 3 := by decide
+/-- seven nested lists: the recursion guard -/
+example : parse small (.group [.group [.group [.group [.group [.group [.group []]]]]]]) = .error .recursion := by decide
+
+end NestingExamples
 
 /-- the full statement fails exactly through the `elif` recursion: while `parse_if_cond` calls itself
     outside the guard, not every cycle is guarded (witness replayed by the depth probe `d elif n`) -/
